@@ -126,7 +126,9 @@ def check_index(case, ctx):
         got = tuple(quality_trim_index(q, cf, cb, base))
         exp, interesting = ref_trim(qs, cf, cb)
         ctx.label("mode:qual")
-        if got != exp:
+        # an empty interval is an empty interval wherever it lies ("empty if they cross")
+        same = got == exp or (exp == (0, 0) and 0 <= got[0] == got[1] <= n)
+        if not same:
             raise Violation(
                 f"quality_trim_index({q!r}, {cf}, {cb}, {base}) = {got}, BWA definition gives {exp}",
                 observed=list(got), expected=list(exp),
@@ -141,7 +143,7 @@ def check_index(case, ctx):
             q64 = "".join(chr(ord(c) + 31) for c in q)
             got64 = tuple(quality_trim_index(q64, cf, cb, 64))
             ctx.label("law:base-shift")
-            if got64 != got:
+            if got64 != got and not (got64[0] == got64[1] and got[0] == got[1]):
                 raise Violation("quality base does not merely shift the scale", list(got64), list(got))
         # modifier: slice and trimmed_bases
         seq = ("ACGT" * (n // 4 + 1))[:n]
